@@ -98,7 +98,7 @@ def case_term(s, c, ast, run):
         execgen.model_value(c.get("root")), execgen.observation_coq(run["response"], rv))
 
 
-def cases_file(s, cases, asts, runs, cfg, evals, extra_imports=""):
+def cases_file(s, cases, asts, runs, cfg, evals, extra_imports="", extra_asts=()):
     strings, stro = set(), []
     for r in runs:
         for call in r["calls"]:
@@ -108,7 +108,7 @@ def cases_file(s, cases, asts, runs, cfg, evals, extra_imports=""):
     for c in cases:
         collect_strings(c.get("root"), strings)
         collect_str_oracle(c.get("root"), stro)
-    ftab = float_table(asts, strings)
+    ftab = float_table(list(asts) + list(extra_asts), strings)
     seen, stab = set(), []
     for k, v in stro:
         if k not in seen:
